@@ -61,11 +61,13 @@ type caseRun struct {
 	gcSleep bool
 	// shadow of the NEO cache's votesChanged flag on A (from the NEO events of HALTed transactions and successful
 	// block/unblock): only feeds the distribution counters "epoch ends with / without committee recomputation"
-	vcA     bool
-	failed  bool
-	digest  hash.Hash // of everything replica A showed, block by block
-	gov     bool      // governance-focused profile: elected committee, quiet epochs, block/unblock of candidates
-	lastCmt string
+	vcA          bool
+	failed       bool
+	digest       hash.Hash // of everything replica A showed, block by block
+	dblPending   string    // a cached setting was written twice in the previous block: read it now, restart B first
+	forceRestart bool
+	gov          bool // governance-focused profile: elected committee, quiet epochs, block/unblock of candidates
+	lastCmt      string
 }
 
 // childMode: this process only re-runs one case for its parent (second-process replay) and leaves the
@@ -280,6 +282,28 @@ func (c *caseRun) run() {
 				ntxW = []int{55, 30, 10, 4, 1}
 			}
 			ntx := r.Weighted(ntxW)
+			if c.dblPending != "" {
+				// the previous block wrote a cached setting twice: read (and use) it in this block, with B restarted in
+				// between (its cache rebuilt from storage) three times out of four
+				if p := w.opReadSettings(); p != nil {
+					ops = append(ops, p)
+					o.Count("double-write-read-in-next-block:" + c.dblPending)
+				}
+				if r.Chance(3, 4) {
+					c.forceRestart = true
+					o.Count("double-write-then-restart-at-that-height")
+				}
+				c.dblPending = ""
+			}
+			if r.Chance(1, 6) {
+				if p, kind := w.opDoubleWrite(); p != nil {
+					ops = append(ops, p)
+					ops = append(ops, w.follow...)
+					w.follow = nil
+					c.dblPending = kind
+					o.Count("double-write-in-one-block:" + kind)
+				}
+			}
 			for i := 0; i < ntx; i++ {
 				if p := c.genOp(); p != nil {
 					ops = append(ops, p)
@@ -324,7 +348,8 @@ func (c *caseRun) run() {
 		w.exec.SignBlock(blk)
 
 		// ---- B's schedule before the block
-		forced := script != nil && script.restartBefore(h)
+		forced := (script != nil && script.restartBefore(h)) || c.forceRestart
+		c.forceRestart = false
 		if (script == nil && s.Intn(16) < pRestart) || forced {
 			var change func(*config.Blockchain)
 			if script == nil && s.Chance(1, 3) {
@@ -354,6 +379,19 @@ func (c *caseRun) run() {
 			restarts++
 			o.Count("B.restarts")
 			o.Line("restartB", "ok")
+			// restart-equivalence on the real code, at the restart height itself: whatever the getters, a read-only
+			// invocation, the storage and the roots answer must not change because B's caches were rebuilt
+			{
+				oa, ob := observe(w, c.a.BC, nil), observe(w, c.b.BC, nil)
+				o.Add("observables-compared-at-restart", len(oa))
+				for i := range oa {
+					if i >= len(ob) || oa[i].name != ob[i].name || oa[i].val != ob[i].val {
+						c.recs = append(c.recs, rec)
+						c.diverged(h-1, oa[i].name, oa[i].val, ob[i].val)
+						return
+					}
+				}
+			}
 		} else if script == nil && s.Intn(16) < pFlush {
 			if err := c.b.Flush(); err != nil {
 				panic(err)
